@@ -7,6 +7,7 @@ import (
 	"math/big"
 	"sort"
 	"strings"
+	"time"
 
 	"golang.org/x/tools/go/ssa"
 
@@ -95,6 +96,9 @@ type PathResult struct {
 	Observes      map[string]string
 	Instrs        int64
 	Queries       int
+	SolverS       float64
+	LabelTime     map[string]float64
+	WallS         float64
 	InternalAsms  []string
 }
 
@@ -121,6 +125,7 @@ type run struct {
 	unwind          int
 	pcFeasibleKnown bool
 	lastInstr       ssa.Instruction
+	lazyAssumes     int
 }
 
 type knownClass struct {
@@ -160,6 +165,22 @@ func (r *run) assertPC(t *smt.Term) {
 func (r *run) assumeInternal(t *smt.Term, why string) {
 	r.res.InternalAsms = append(r.res.InternalAsms, why)
 	r.assertPC(t)
+}
+
+// checkQuick is a feasibility query under the short branch time limit: "unknown" is then
+// treated as feasible by the caller (sound: an infeasible path only adds vacuous work, and
+// counterexamples are replayed natively before they are reported).
+func (r *run) checkQuick(extra ...*smt.Term) smt.Result {
+	ms := r.eng.BranchTimeoutMs
+	if ms <= 0 || ms >= r.eng.SolverTimeoutMs {
+		return r.check(extra...)
+	}
+	r.solver.SetTimeout(ms)
+	res := r.check(extra...)
+	if !r.solver.Dead() {
+		r.solver.SetTimeout(r.eng.SolverTimeoutMs)
+	}
+	return res
 }
 
 func (r *run) check(extra ...*smt.Term) smt.Result {
@@ -205,14 +226,25 @@ func (i *interpreter) branch(c *smt.Term) bool {
 		return d.B
 	}
 	r.stats.forks++
-	tRes := r.check(c)
+	tStart := time.Now()
+	defer func() {
+		if r.res.LabelTime == nil {
+			r.res.LabelTime = map[string]float64{}
+		}
+		site := "branch"
+		if r.lastInstr != nil {
+			site = "branch@" + r.lastInstr.Parent().String() + " " + r.lastInstr.String()
+		}
+		r.res.LabelTime[site] += time.Since(tStart).Seconds()
+	}()
+	tRes := r.checkQuick(c)
 	if tRes == smt.Unsat {
 		r.trace = append(r.trace, Decision{Kind: DBranch, B: false})
 		r.pos++
 		r.assertPC(ctx.Not(c))
 		return false
 	}
-	fRes := r.check(ctx.Not(c))
+	fRes := r.checkQuick(ctx.Not(c))
 	if fRes == smt.Unsat {
 		r.trace = append(r.trace, Decision{Kind: DBranch, B: true})
 		r.pos++
@@ -421,21 +453,48 @@ func (i *interpreter) obligation(cond *smt.Term, label string) {
 		r.res.Trivial++
 		return
 	}
+	if !r.eng.deadline.IsZero() && time.Now().After(r.eng.deadline.Add(30*time.Second)) {
+		// harness budget exhausted: do not start further solver work on this path
+		r.res.Unknown = append(r.res.Unknown, label+" (time budget)")
+		r.abort("steps", "harness time budget exhausted during path")
+	}
+	tStart := time.Now()
+	defer func() {
+		if r.res.LabelTime == nil {
+			r.res.LabelTime = map[string]float64{}
+		}
+		r.res.LabelTime[label] += time.Since(tStart).Seconds()
+	}()
 	neg := ctx.Not(cond)
 	var notK []*smt.Term
+	allKnown := false
 	for _, k := range classes {
 		if !r.eng.KnownOpen[k.id] {
 			continue
 		}
+		if k.cond.IsConst() && !k.cond.B {
+			continue // the class cannot hold on this path
+		}
+		if k.cond.IsConst() && k.cond.B {
+			allKnown = true // every failure on this path belongs to the class
+		}
 		notK = append(notK, ctx.Not(k.cond))
+		if r.eng.knownWitnessed(k.id, 0) >= 4 || r.eng.knownWitnessed(k.id+"#tries", 1) > 12 {
+			continue // the class has been witnessed (or tried) enough in this run; it stays excluded from the main query
+		}
 		m, res := r.model(neg, k.cond)
 		if res == smt.Sat {
+			r.eng.knownWitnessed(k.id, 1)
 			r.finding("known", label, "", m, k.id)
 		} else if res == smt.Unknown {
 			r.res.Unknown = append(r.res.Unknown, label+" (known class "+k.id+")")
 		}
 	}
-	m, res := r.model(append([]*smt.Term{neg}, notK...)...)
+	var m map[string]string
+	res := smt.Unsat
+	if !allKnown {
+		m, res = r.model(append([]*smt.Term{neg}, notK...)...)
+	}
 	if res == smt.Unknown {
 		// second opinion: a fresh z3 5.1.0 process, one-shot, longer time limit
 		if r.secondOpinion(append([]*smt.Term{neg}, notK...)) == smt.Unsat {
@@ -456,7 +515,7 @@ func (i *interpreter) obligation(cond *smt.Term, label string) {
 		if cond.IsConst() {
 			r.abort("ok", "assertion %s failed concretely; path ends", label)
 		}
-		if r.check(cond) == smt.Unsat {
+		if r.checkQuick(cond) == smt.Unsat {
 			r.abort("ok", "assertion %s fails on the whole path; path ends", label)
 		}
 	}
